@@ -34,6 +34,28 @@ Compilation scheme (syntax-directed; nothing is "understood", nothing is optimis
   rule of the profile: a Python expression pattern with holes `_0, _1, ...` and a Lean template.  The externals are
   the vocabulary the model is written in; their meaning is part of the trusted base and is listed in the output.
 
+Aliases (`alias_last` of a profile, e.g. `{"proposition": "conclusions"}`).  Python code that builds a list of
+objects often keeps a second reference to the object it appended last and goes on mutating it
+(`x = C(...); l.append(x); ...; x.attr = v; x.items.append(w)`).  The translated state has no heap, so the object
+lives in the list only and `x` becomes a three-valued mark `Py.Alias`: `none` (`x = None`), `live` (x is the last
+element of `l`) and `stale` (x is some object that need not be the last element any more).  The translator checks
+*syntactically* that `x` is bound only by `x = None` or by the two consecutive statements `x = <call>; l.append(x)`,
+that `l.append(x)` occurs only there, and that every other occurrence of `x` has the form `x.attr` (so no further
+reference to the object is created).  The pair compiles to "append, x := live"; every other change of `l`
+(`l.pop()`, `l.append(other)`, `l = ...`) compiles with `x := x.detach`; a read `x.attr` is
+`Py.aliasLast σ.x σ.l >>= fun o => o.attr` (`AttributeError` for `none`, the non-Python error `.alias` for `stale`,
+which the tie theorem shows never happens - like `.fuel`); `x.attr = v` / `x.attr.append(v)` replace the last
+element (`Py.setLast`).  For a `Stack` the last element is the head (`Py.aliasTop`, `Py.setTop`).  Attribute types
+come from `record_fields[(element type, attr)]`.  When the list holds a sum type and the object is one of its cases
+the entry is `{"list": l, "type": record type, "embed": "(C {0})", "view": "(asC {0})"}` (`view : element -> Py.M record`).
+
+`skip_stmts` lists call statements that are not translated at all (logging); their arguments are not looked at.
+
+Two further small profile entries: `truthy` maps a Lean type to the template of the truth value of its Python
+objects (classes that define `__len__` / `__bool__`; the default for `Option T` is `isSome`), and `none_init` lists
+`for` targets whose declaration `x = None` before the loop is skipped (the translator checks that `x` is read only
+inside that loop or inside `raise` statements, whose arguments are not translated).
+
 Anything outside the subset raises `Untranslatable` - the tie is then reported as broken (never silently skipped).
 """
 from __future__ import annotations
@@ -100,7 +122,7 @@ def balanced(s):
 
 
 LEAN_RESERVED = {"prec", "postfix", "prefix", "infix", "infixl", "infixr", "end", "at", "from", "to", "by", "do", "then", "else", "if",
-                 "let", "have", "show", "fun", "match", "with", "in", "open", "section", "namespace", "variable", "def",
+                 "let", "have", "show", "fun", "match", "with", "in", "open", "section", "namespace", "variable", "variables", "def",
                  "theorem", "instance", "structure", "class", "where", "deriving", "local", "import", "mutual", "private",
                  "protected", "notation", "macro", "syntax", "elab", "term", "Type", "Prop", "Sort", "true", "false", "some",
                  "none", "id", "max", "min", "set", "bind", "pure"}
@@ -167,6 +189,7 @@ class Fn:
         for x in profile.get("stmt_externals", []):
             self.sext.append((ast.parse(x[0]).body[0], x[1], x[2], (x[3] if len(x) > 3 else None)))
         self.skip = [ast.parse(p, mode="eval").body for p in profile.get("skip_if", ["settings.debugging"])]
+        self.skips = [ast.parse(p, mode="eval").body for p in profile.get("skip_stmts", [])]
         self.aux = []             # auxiliary loop definitions (text), in dependency order
         self.nloop = 0
         self.used_ext = []
@@ -181,13 +204,111 @@ class Fn:
         self.ret_ty = profile.get("ret")
         if self.ret_ty:
             self.locals["ret"] = f"Option {paren(self.ret_ty)}"
+        self.alias = {}                                          # alias local -> list local
+        self.alias_view = {}                                     # alias local -> (record type, embed template, view template)
+        for x, spec in profile.get("alias_last", {}).items():
+            if isinstance(spec, dict):
+                self.alias[x] = spec["list"]
+                self.alias_view[x] = (spec["type"], spec["embed"], spec["view"])
+            else:
+                self.alias[x] = spec
+        self.alias_pairs = set()                                 # id() of the `l.append(x)` statements of the pairs
+        for x, lst in self.alias.items():
+            if lst not in self.locals or not re.match(r"(List|Stack) ", self.locals[lst]):
+                raise Untranslatable(f"alias_last: '{lst}' is not a declared list")
+            if x in self.ptypes or self.locals.get(x, "Py.Alias") != "Py.Alias":
+                raise Untranslatable(f"alias_last: '{x}' is declared otherwise")
+            self.locals[x] = "Py.Alias"
+            self.check_alias(x, lst)
+        self.check_none_init()
+
+    # ---------------------------------------------------------------- aliases of the last element of a list
+    def check_alias(self, x, lst):
+        """the syntactic conditions under which `x` may be treated as an alias of the last element of `lst`"""
+        allowed = set()
+
+        def is_pair_append(s):
+            return (isinstance(s, ast.Expr) and isinstance(s.value, ast.Call) and isinstance(s.value.func, ast.Attribute)
+                    and s.value.func.attr == "append" and isinstance(s.value.func.value, ast.Name) and s.value.func.value.id == lst
+                    and len(s.value.args) == 1 and not s.value.keywords and isinstance(s.value.args[0], ast.Name) and s.value.args[0].id == x)
+
+        for node in ast.walk(self.fdef):
+            for fld in ("body", "orelse", "finalbody"):
+                block = getattr(node, fld, None)
+                if not isinstance(block, list):
+                    continue
+                for i, s in enumerate(block):
+                    tgt = s.targets[0] if isinstance(s, ast.Assign) and len(s.targets) == 1 else (s.target if isinstance(s, ast.AnnAssign) else None)
+                    if isinstance(tgt, ast.Name) and tgt.id == x:
+                        if isinstance(s.value, ast.Constant) and s.value.value is None:
+                            allowed.add(id(tgt))
+                        elif isinstance(s.value, ast.Call) and i + 1 < len(block) and is_pair_append(block[i + 1]):
+                            allowed.add(id(tgt))
+                            allowed.add(id(block[i + 1].value.args[0]))
+                            self.alias_pairs.add(id(block[i + 1]))
+                        else:
+                            raise Untranslatable(f"alias_last: '{x}' is bound by `{ast.unparse(s)[:50]}`, not by `{x} = None` or `{x} = C(...); {lst}.append({x})`")
+            if isinstance(node, ast.Attribute) and isinstance(node.value, ast.Name) and node.value.id == x:
+                allowed.add(id(node.value))
+        for node in ast.walk(self.fdef):
+            if isinstance(node, ast.Name) and node.id == x and id(node) not in allowed:
+                raise Untranslatable(f"alias_last: '{x}' is used other than as `{x}.attr` (line {getattr(node, 'lineno', '?')} of the function)")
+            if isinstance(node, ast.arg) and node.arg == x:
+                raise Untranslatable(f"alias_last: '{x}' is a parameter")
+
+    def alias_of_list(self, lst):
+        return [x for x, l in self.alias.items() if l == lst]
+
+    def detach(self, lst):
+        """the extra field updates when the list `lst` changes other than by an alias pair"""
+        return "".join(f", {x} := σ.{x}.detach" for x in self.alias_of_list(lst))
+
+    def alias_type(self, x):
+        """the record type of the object behind x: the element type of the list, or the `type` of a view"""
+        return self.alias_view[x][0] if x in self.alias_view else elem_type(self.locals[self.alias[x]])
+
+    def alias_get(self, x):
+        lst = self.alias[x]
+        prim = "Py.aliasTop" if self.locals[lst].startswith("Stack ") else "Py.aliasLast"
+        if x in self.alias_view:
+            return f"({prim} σ.{x} σ.{lst} >>= fun o => {self.alias_view[x][2].format('o')})"
+        return f"{prim} σ.{x} σ.{lst}"
+
+    def alias_field(self, x, attr):
+        ety = self.alias_type(x)
+        fty = self.p.get("record_fields", {}).get((ety, attr))
+        if fty is None:
+            raise Untranslatable(f"alias_last: no record_fields entry for ({ety}, {attr})")
+        return mangle(attr), fty
+
+    def alias_set(self, x, upd):
+        """`let σ := …` that replaces the last element of the list by `upd` (a term that may mention `o`, the old one)"""
+        lst = self.alias[x]
+        prim = "Py.setTop" if self.locals[lst].startswith("Stack ") else "Py.setLast"
+        if x in self.alias_view:
+            upd = self.alias_view[x][1].format(upd)
+        return f"let σ := {{ σ with {lst} := {prim} σ.{lst} {upd} }}"
+
+    def check_none_init(self):
+        for x in self.p.get("none_init", []):
+            loops = [n for n in ast.walk(self.fdef) if isinstance(n, ast.For) and isinstance(n.target, ast.Name) and n.target.id == x]
+            if len(loops) != 1:
+                raise Untranslatable(f"none_init: '{x}' is not the target of exactly one for loop")
+            inside = {id(n) for st in loops[0].body for n in ast.walk(st)}
+            for r in ast.walk(self.fdef):
+                if isinstance(r, ast.Raise):
+                    inside |= {id(n) for n in ast.walk(r)}
+            for n in ast.walk(self.fdef):
+                if isinstance(n, ast.Name) and n.id == x and isinstance(n.ctx, ast.Load) and id(n) not in inside:
+                    raise Untranslatable(f"none_init: '{x}' is read outside its loop")
 
     # ---------------------------------------------------------------- constants
     def const_of(self, node):
         """value of a translation-time constant expression, or raise KeyError"""
         env = dict(self.glob)
         env.update(self.consts)
-        names = {n.id for n in ast.walk(node) if isinstance(n, ast.Name)}
+        bound = {n.id for c in ast.walk(node) if isinstance(c, ast.comprehension) for n in ast.walk(c.target) if isinstance(n, ast.Name)}
+        names = {n.id for n in ast.walk(node) if isinstance(n, ast.Name)} - bound
         for n in names:
             if n in self.locals or n in self.ptypes or n == "self":
                 raise KeyError(n)
@@ -255,6 +376,9 @@ class Fn:
 
     def truthy(self, e):
         t = e.ty
+        if t in self.p.get("truthy", {}):
+            tmpl = self.p["truthy"][t]
+            return self.bind1(e, lambda x: tmpl.format(paren(x)), "Bool")
         if t == "Bool":
             return e
         if t in ("Nat", "Int"):
@@ -427,6 +551,9 @@ class Fn:
             if c.pure and a.pure and b.pure:
                 return E(f"(if {c.term} then {a.term} else {b.term})", a.ty)
             return E(f"({c.m()} >>= fun c => if c then {a.m()} else {b.m()})", a.ty, False)
+        if isinstance(node, ast.Attribute) and isinstance(node.value, ast.Name) and node.value.id in self.alias:
+            fld, fty = self.alias_field(node.value.id, node.attr)
+            return E(f"({self.alias_get(node.value.id)} >>= fun o => .ok o.{fld})", fty, False)
         if isinstance(node, ast.Subscript):
             base = self.ce(node.value)
             idx = node.slice
@@ -507,8 +634,8 @@ class Fn:
         if "_" not in e.ty and e.ty.replace("Stack ", "List ") != want.replace("Stack ", "List "):
             raise Untranslatable(f"'{name}' has type {want}, assigned {e.ty}")
         if e.pure:
-            return f"{k} {{ σ with {name} := {e.term} }}"
-        return f"{e.term} >>= fun v => {k} {{ σ with {name} := v }}"
+            return f"{k} {{ σ with {name} := {e.term}{self.detach(name)} }}"
+        return f"{e.term} >>= fun v => {k} {{ σ with {name} := v{self.detach(name)} }}"
 
     @staticmethod
     def app(k):
@@ -543,6 +670,8 @@ class Fn:
             return f"{term} >>= fun σ =>\n{after()}"
         if isinstance(s, (ast.Import, ast.ImportFrom, ast.Pass)):
             return after()
+        if isinstance(s, ast.Expr) and isinstance(s.value, ast.Call) and any(match_pattern(p, s.value, {}) for p in self.skips):
+            return after()
         if isinstance(s, ast.If) and any(ast.dump(s.test) == ast.dump(p) for p in self.skip) and not s.orelse:
             return after()
         if isinstance(s, ast.AnnAssign):
@@ -573,6 +702,25 @@ class Fn:
                 for e, v in zip(t.elts, vals):
                     self.consts[e.id] = v
                 return after()
+            if isinstance(t, ast.Name) and t.id in self.alias:
+                x, lst = t.id, self.alias[t.id]
+                if isinstance(s.value, ast.Constant) and s.value.value is None:
+                    return f"let σ := {{ σ with {x} := Py.Alias.none }}\n{after()}"
+                # `x = C(...); lst.append(x)` (shape checked by check_alias): the object goes to the list, x is live
+                if not rest or id(rest[0]) not in self.alias_pairs:
+                    raise Untranslatable(f"alias_last: `{ast.unparse(s)[:50]}` is not followed by `{lst}.append({x})`")
+                e = self.ce(s.value)
+                want = self.alias_type(x)
+                if e.ty != want:
+                    raise Untranslatable(f"alias_last: '{x}' stands for {want}, `{ast.unparse(s.value)[:40]}` is {e.ty}")
+                if x in self.alias_view:
+                    e = self.bind1(e, lambda v: self.alias_view[x][1].format(paren(v)), elem_type(self.locals[lst]))
+                others = "".join(f", {y} := σ.{y}.detach" for y in self.alias_of_list(lst) if y != x)
+                app = (lambda v: f"({v} :: σ.{lst})") if self.locals[lst].startswith("Stack ") else (lambda v: f"(σ.{lst} ++ [{v}])")
+                cont = self.cs(rest[1:], k, loopk, brk)
+                if e.pure:
+                    return f"let σ := {{ σ with {lst} := {app(paren(e.term))}, {x} := Py.Alias.live{others} }}\n{cont}"
+                return f"{e.term} >>= fun v =>\nlet σ := {{ σ with {lst} := {app('v')}, {x} := Py.Alias.live{others} }}\n{cont}"
             if isinstance(t, ast.Name) and t.id in self.p.get("rebind", {}) and t.id not in self.rebound:
                 e = self.ce(s.value)
                 self.rebound[t.id] = self.p["rebind"][t.id]
@@ -586,6 +734,8 @@ class Fn:
                         raise Untranslatable(f"'{t.id}' is declared constant but is not: {ast.unparse(s)}") from ex
                 if t.id in self.p.get("ignore_locals", []):
                     return after()
+                if t.id in self.p.get("none_init", []) and isinstance(s.value, ast.Constant) and s.value.value is None:
+                    return after()
                 val = s.value
                 if isinstance(val, ast.Call) and isinstance(val.func, ast.Attribute) and val.func.attr == "pop" and not val.args and self.try_external(val) is None:
                     return self.pop_stmt(val.func.value, lambda x: self._let(t.id, x), rest, k, loopk, brk)
@@ -595,9 +745,24 @@ class Fn:
                     and isinstance(t.value, ast.Name) and t.value.id in getattr(self, "row_vars", ())):
                 # `x[...] = e` inside an in-place loop: the current row
                 return self._assign(t.value.id, self.ce(s.value), rest, k, loopk, brk)
+            if isinstance(t, ast.Attribute) and isinstance(t.value, ast.Name) and t.value.id in self.alias:
+                # x.attr = e : e is evaluated first, then the attribute of the object behind x is set
+                x = t.value.id
+                fld, fty = self.alias_field(x, t.attr)
+                e = self.ce(s.value)
+                opt = fty.startswith("Option ") and not e.ty.startswith("Option")
+                if "_" not in e.ty and fty not in ((f"Option {paren(e.ty)}", f"Option {e.ty}") if opt else (e.ty,)):
+                    raise Untranslatable(f"attribute {t.attr} has type {fty}, assigned {e.ty}")
+                wrap = (lambda v: f"(some {v})") if opt else (lambda v: v)
+                if e.pure:
+                    return f"{self.alias_get(x)} >>= fun o =>\n{self.alias_set(x, '{ o with ' + fld + ' := ' + wrap(paren(e.term)) + ' }')}\n{after()}"
+                return f"{e.term} >>= fun v =>\n{self.alias_get(x)} >>= fun o =>\n{self.alias_set(x, '{ o with ' + fld + ' := ' + wrap('v') + ' }')}\n{after()}"
             if isinstance(t, ast.Attribute):
                 fld = ast.unparse(t).replace(".", "_")
                 if fld in self.locals:
+                    val = s.value
+                    if isinstance(val, ast.Call) and isinstance(val.func, ast.Attribute) and val.func.attr == "pop" and not val.args and self.try_external(val) is None:
+                        return self.pop_stmt(val.func.value, lambda x: self._let(fld, x), rest, k, loopk, brk)
                     return self._assign(fld, self.ce(s.value), rest, k, loopk, brk)
                 if isinstance(t.value, ast.Name) and t.value.id in self.locals and (self.locals[t.value.id], t.attr) in self.p.get("record_fields", {}):
                     loc, fty = t.value.id, self.p["record_fields"][(self.locals[t.value.id], t.attr)]
@@ -649,7 +814,22 @@ class Fn:
         if isinstance(s, ast.Expr) and isinstance(s.value, ast.Call):
             call = s.value
             f = call.func
+            if (isinstance(f, ast.Attribute) and f.attr == "append" and len(call.args) == 1 and isinstance(f.value, ast.Attribute)
+                    and isinstance(f.value.value, ast.Name) and f.value.value.id in self.alias):
+                # x.attr.append(e): x.attr is evaluated first (AttributeError for None), then e, then the append
+                x = f.value.value.id
+                fld, fty = self.alias_field(x, f.value.attr)
+                if not fty.startswith("List "):
+                    raise Untranslatable(f"append to attribute {f.value.attr} of type {fty}")
+                e = self.ce(call.args[0])
+                if "_" not in e.ty and e.ty != elem_type(fty):
+                    raise Untranslatable(f"attribute {f.value.attr} has type {fty}, appended {e.ty}")
+                if e.pure:
+                    return f"{self.alias_get(x)} >>= fun o =>\n{self.alias_set(x, '{ o with ' + fld + ' := o.' + fld + ' ++ [' + e.term + '] }')}\n{after()}"
+                return f"{self.alias_get(x)} >>= fun o =>\n{e.term} >>= fun v =>\n{self.alias_set(x, '{ o with ' + fld + ' := o.' + fld + ' ++ [v] }')}\n{after()}"
             if isinstance(f, ast.Attribute) and f.attr == "append" and len(call.args) == 1 and isinstance(f.value, ast.Name):
+                if id(s) in self.alias_pairs:
+                    raise Untranslatable("alias_last: the append of an alias pair was reached on its own")
                 tgt = f.value.id
                 tty = self.locals.get(tgt)
                 if tty is None:
@@ -659,11 +839,11 @@ class Fn:
                 app = (lambda x: f"({x} :: σ.{tgt})") if is_stack else (lambda x: f"(σ.{tgt} ++ [{x}])")
                 if isinstance(arg, ast.Call) and isinstance(arg.func, ast.Attribute) and arg.func.attr == "pop" and not arg.args and self.try_external(arg) is None:
                     # x.append(y.pop()): y.pop() is evaluated first, then the append
-                    return self.pop_stmt(arg.func.value, lambda x: f"let σ := {{ σ with {tgt} := {app(x.term)} }}", rest, k, loopk, brk)
+                    return self.pop_stmt(arg.func.value, lambda x: f"let σ := {{ σ with {tgt} := {app(x.term)}{self.detach(tgt)} }}", rest, k, loopk, brk)
                 e = self.ce(arg)
                 if e.pure:
-                    return f"let σ := {{ σ with {tgt} := {app(paren(e.term))} }}\n{after()}"
-                return seq(lambda kn: f"{e.term} >>= fun v => {kn} {{ σ with {tgt} := {app('v')} }}")
+                    return f"let σ := {{ σ with {tgt} := {app(paren(e.term))}{self.detach(tgt)} }}\n{after()}"
+                return seq(lambda kn: f"{e.term} >>= fun v => {kn} {{ σ with {tgt} := {app('v')}{self.detach(tgt)} }}")
             if isinstance(f, ast.Attribute) and f.attr == "pop" and not call.args and self.try_external(call) is None:
                 return self.pop_stmt(f.value, lambda x: "", rest, k, loopk, brk)
             ext = self.try_external(call)
@@ -783,7 +963,7 @@ class Fn:
             t = f"(some {paren(t)})"
         elif "_" not in e.ty and e.ty.replace("Stack ", "List ") != want.replace("Stack ", "List "):
             raise Untranslatable(f"'{name}' has type {want}, assigned {e.ty}")
-        return f"let σ := {{ σ with {name} := {t} }}"
+        return f"let σ := {{ σ with {name} := {t}{self.detach(name)} }}"
 
     def _assign(self, name, e, rest, k, loopk, brk):
         if name not in self.locals:
@@ -798,12 +978,12 @@ class Fn:
                 e = self.toX(e)
             if "_" not in e.ty and e.ty.replace("Stack ", "List ") != want.replace("Stack ", "List "):
                 raise Untranslatable(f"'{name}' has type {want}, assigned {e.ty}")
-            return f"let σ := {{ σ with {name} := {e.term} }}\n{self.cs(rest, k, loopk, brk)}"
+            return f"let σ := {{ σ with {name} := {e.term}{self.detach(name)} }}\n{self.cs(rest, k, loopk, brk)}"
         want = self.locals[name]
         if "_" not in e.ty and e.ty.replace("Stack ", "List ") != want.replace("Stack ", "List ") and not (want.startswith("Option ") and want == f"Option {paren(e.ty)}"):
             raise Untranslatable(f"'{name}' has type {want}, assigned {e.ty}")
         v = "(some v)" if want.startswith("Option ") and not e.ty.startswith("Option") else "v"
-        return f"{e.term} >>= fun v =>\nlet σ := {{ σ with {name} := {v} }}\n{self.cs(rest, k, loopk, brk)}"
+        return f"{e.term} >>= fun v =>\nlet σ := {{ σ with {name} := {v}{self.detach(name)} }}\n{self.cs(rest, k, loopk, brk)}"
 
     def pop_stmt(self, target, use, rest, k, loopk, brk):
         """`target.pop()` (last element of a list / top of a stack): removes it, then `use(E(value))` continues with `kk`"""
@@ -815,7 +995,7 @@ class Fn:
         cont = self.cs(rest, k, loopk, brk)
         inner = use(E("p.1", elem_type(tty)))
         inner = inner + "\n" if inner else ""
-        return f"{prim} σ.{nm} >>= fun p =>\nlet σ := {{ σ with {nm} := p.2 }}\n{inner}{cont}"
+        return f"{prim} σ.{nm} >>= fun p =>\nlet σ := {{ σ with {nm} := p.2{self.detach(nm)} }}\n{inner}{cont}"
 
     _n = 0
 
